@@ -78,7 +78,23 @@ def build_graph(case):
     return g
 
 
+_WARM = set()
+
+
+def _warm(mode):
+    """The first traced run in a process takes extra steps (lazy imports, caches): do one throw-away run per mode so that
+    a (case, seed) pair denotes the same schedule in the exploring process and in a replaying one."""
+    if mode in _WARM:
+        return
+    _WARM.add(mode)
+    for sched in ("default", "random", "cheap"):
+        c = {"n": 3, "edges": [(0, 2), (1, 2)], "nodes": [0, 1, 2], "workers": 2, "max_errors": 0, "scheduler": sched,
+             "failing": {1: "ValueError"}}
+        run_case(c, 1, mode=mode)
+
+
 def run_case(case, seed, mode="prim", interrupt_at=None, op_switch_p=0.05):
+    _warm(mode)
     g = build_graph(case)
     types = {t.__name__: t for t in EXC_TYPES}
     raised = {}
